@@ -877,7 +877,7 @@ pub fn run_block_check(id: &str, tier: &str, seed: u64) -> i32 {
     let mut inconclusive: Vec<String> = vec![];
     let mut e2e_evals: BTreeMap<String, u64> = BTreeMap::new();
     if let Ok(bin) = std::env::var("VMON_PLUGIN_BIN") {
-        let r = crate::e2e_checks::c20_e2e(&bin, seed, if thorough { 200 } else { 24 }, if thorough { 16 } else { 0 });
+        let r = crate::e2e_checks::c20_e2e(&bin, seed, if thorough { 200 } else { 24 }, if thorough { 16 } else { 2 });
         e2e_cov = r.coverage;
         for (k, v) in r.violations {
             violations.insert(k, v);
